@@ -5,6 +5,7 @@ C19_defaults), plus behaviour-level sessions whose model settings come from the 
 from __future__ import annotations
 
 import ipaddress
+import copy
 import json
 import random
 import sys
@@ -71,7 +72,7 @@ def gen_cfg(rng):
         env["required_players"] = rng.choice([1, 2, 3])
     for sw in ("use_firewall", "use_global_defender", "save_trajectories", "use_dynamic_addresses"):
         if rng.random() < 0.6:
-            env[sw] = rng.random() < 0.5 if sw != "use_dynamic_addresses" else False
+            env[sw] = rng.random() < 0.5 if sw != "use_dynamic_addresses" else rng.random() < 0.5
     return {"coordinator": {"agents": agents}, "env": env}, sc
 
 
@@ -148,7 +149,7 @@ def main(tier):
         for f in info["failures"]:
             V.proof_fail(f)
     stats = {"configs": 0, "nontrivial": set(), "samples": [], "joins": 0, "wildcards": 0, "absent_keys": 0}
-    cstats, other = {}, {}
+    cstats, other = {"focus": "C19"}, {}
     if info.get("build_ok"):
         rng = random.Random(7919 * seed() + 19)
         drv = Driver()
@@ -190,7 +191,8 @@ def main(tier):
                         V.fail("setting:max_connections", f"server limit {sim.server_cb.max_connections} vs required players {S['required']}", {"config": cfg})
                     # (c) initial views, wildcards
                     import random as pyrandom
-                    for cid, role in enumerate(("Attacker", "Defender")):
+                    roles_order = ("Attacker", "Defender") if rng.random() < 0.5 else ("Defender", "Attacker")
+                    for cid, role in enumerate(roles_order):
                         if cid >= S["required"]:
                             break
                         picks = []
@@ -228,6 +230,25 @@ def main(tier):
                                 V.fail("wildcard-invalid", "a wildcard resolved to a host that is not in the scenario", {"config": cfg, "role": role})
                             if any(p not in wi["startHosts"] for p in picks):
                                 V.fail("random-invalid", "'random' resolved to a host that is not a start host of the scenario", {"config": cfg, "picks": picks})
+                    # (d) second episode: the start positions (wildcards included) still resolve to hosts that exist - also
+                    # after the addresses were re-labelled by the reset
+                    joined = [cid for cid in range(2) if ("127.0.0.1", 40000 + cid) in co._agent_states]
+                    if joined and len(joined) == min(2, S["required"]) and S["required"] <= 2:
+                        sim.outputs()
+                        for cid in joined:
+                            sim.send(cid, CC.J(ActionType.ResetGame, request_trajectory=False))
+                        stats["second_episodes"] = stats.get("second_episodes", 0) + 1
+                        for cid in joined:
+                            role = roles_order[cid]
+                            st = co._agent_states.get(("127.0.0.1", 40000 + cid))
+                            if st is None:
+                                continue
+                            ghosts = sorted(str(x) for x in (set(st.known_hosts) | set(st.controlled_hosts)) if x not in co._ip_to_hostname)
+                            sp = cfg["coordinator"]["agents"][role]["start_position"]
+                            listed_invalid = [x for k in ("known_hosts", "controlled_hosts") for x in sp.get(k, []) if x not in ("random", "all_local") and IP(x) not in (getattr(co, "_ip_mapping", None) or {IP(x): 1}) and IP(x) not in co._ip_to_hostname]
+                            if ghosts and not listed_invalid:
+                                V.fail("second-episode-ghosts", f"after a reset the {role} start position resolves to hosts {ghosts[:6]} that do not exist in the network (dynamic addresses: {S['dynamic']})",
+                                       {"config": cfg, "role": role})
                     if len(stats["samples"]) < 2:
                         stats["samples"].append({"config": cfg, "parsed_settings": real})
                 finally:
@@ -242,36 +263,48 @@ def main(tier):
 
             def cfg_gen(r):
                 return CC.gen_config(r)
+            cfg_gen.variants = True
             orig_settings_of = CC.settings_of
 
             def settings_from_file(coord):
                 s = orig_settings_of(coord)
-                m = drv.ask({"op": "config", "cfg": coord.task_config.config, **validity(coord.task_config.config)})["settings"]
+                fcfg = copy.deepcopy(coord.task_config.config)
+                rw = (fcfg.get("env") or {}).get("rewards")
+                if isinstance(rw, dict):     # the model's reader works on integers: hand it the rewards in units of 1/REWARD_SCALE
+                    for k in list(rw):
+                        rw[k] = CC.scaled(rw[k])
+                m = drv.ask({"op": "config", "cfg": fcfg, **validity(fcfg)})["settings"]
                 s.update({"required": m["required"], "maxSteps": {"Attacker": m["maxStepsAttacker"], "Defender": m["maxStepsDefender"], "Benign": None},
                           "rStep": m["rStep"], "rSuccess": m["rSuccess"], "rFail": m["rFail"], "defender": m["defender"], "storeTraj": m["saveTraj"]})
                 return s
             CC.settings_of = settings_from_file
             try:
-                CC.run_sessions(drv, rng, tabs, on_fail, cstats, 25 if tier == "quick" else 300, 40, {"outcome_mix": True, "leave": 0.03, "bad": 0.02})
+                CC.run_sessions(drv, rng, tabs, on_fail, cstats, 70 if tier == "quick" else 700, 40, {"outcome_mix": True, "leave": 0.03, "bad": 0.02, "early_reset": 0.08, "roles": ["Attacker", "Attacker", "Defender"]})
             finally:
                 CC.settings_of = orig_settings_of
             # a disagreement belongs to C19 only if it disappears when the model takes its settings from what
             # the running coordinator says it uses (then the game does not honour the file); otherwise it is
             # some other property's business
-            seen = set()
+            seen = {}
             for tags, sig, desc, rep in pending:
-                key = json.dumps(rep.get("events", []), sort_keys=True)[:2000]
-                if key in seen:
-                    continue
-                seen.add(key)
-                again = []
-                sess = CC.Session(drv, random.Random(0), rep["config"], tabs, lambda t, s_, d, r: again.append(s_), {}, "recheck")
-                try:
-                    CC.replay_events(sess, rep["events"])
-                finally:
-                    sess.close()
                 about_setting = ("TimeoutReached" in desc or sig.startswith(("reward:", "maxsteps", "state:startEv", "files-", "agent:reward")))
-                if not again or "C19" in tags or about_setting:
+                if "events" not in rep:          # a statement about the configuration itself
+                    if "C19" in tags:
+                        V.fail("behaviour:" + sig, desc, rep)
+                    continue
+                if "C19" in tags or about_setting:
+                    V.fail("behaviour:" + sig, "the game does not behave as the configuration file says: " + desc, rep)
+                    continue
+                key = json.dumps(rep.get("events", []), sort_keys=True)[:2000]
+                if key not in seen:
+                    again = []
+                    sess = CC.Session(drv, random.Random(0), rep["config"], tabs, lambda t, s_, d, r: again.append(s_), {}, "recheck")
+                    try:
+                        CC.replay_events(sess, rep["events"])
+                    finally:
+                        sess.close()
+                    seen[key] = bool(again)
+                if not seen[key]:
                     V.fail("behaviour:" + sig, "the game does not behave as the configuration file says: " + desc, rep)
         finally:
             drv.close()
